@@ -15,7 +15,7 @@ while read p props; do
     n=$((n+1))
     if (cd /verif && ./check $c 2>&1 | grep -q "^VIOLATION property=$c"); then :; else echo "== $p: MISSED by $c"; miss=$((miss+1)); fi
   done
-  git checkout -q -- .
+  git checkout -q -- . && git clean -fdq
 done < /tmp/.mutants.$$
 rm -f /tmp/.mutants.$$
 echo "$n mutant/property pairs, $miss missed"
